@@ -191,6 +191,8 @@ def run(check):
                             failing_input=failing, broken=None if failing else "correspondence annotation macro (theorems TsV.C19.*)")
             break
     twin_part(check)
+    if not check.has_failing():
+        stacked_part(check)
     check.assumptions += ["rustc and derive macros are functions of the token stream they receive: syntactic identity of the expansion with the stripped twin implies identical compilation and serialisation behaviour for items written directly in source (trusted, not proved); for macro_rules!-generated items the text of the token stream is not everything (hygiene of `$crate`, spans, the origin of None-delimited fragment groups): those are not modelled and are covered only by the twin programs compiled and run by this check (nine fragment/hygiene scenarios per round, helpers and arguments randomised)",
                           "token streams are compared modulo white-space"]
 
@@ -362,3 +364,455 @@ def strip(it):
             v["attrs"] = keep(v["attrs"])
             for f in v["fields"]:
                 f["attrs"] = keep(f["attrs"])
+
+
+# ----------------------------------------------------------------------------- stacked item-level #[typeshare(..)] lines
+# typeshare documents several item-level argument forms (swift / kotlin decorators, `serialized_as`, `redacted`) and users
+# write them as separate lines stacked on the item, anywhere between its derive / serde / repr / doc / cfg_attr lines.  The
+# first of them (in source order, after rustc evaluated `cfg_attr`) invokes the macro with all the others still on the item.
+
+def L(path, tokens="", cfg=None):
+    """one item-level attribute line; cfg = None | "all()" | "any()" wraps it in #[cfg_attr(<cfg>, ..)]"""
+    return {"path": path.split("::"), "tokens": tokens, "cfg": cfg}
+
+
+def line_src(l):
+    inner = "::".join(l["path"]) + l["tokens"]
+    return "#[cfg_attr(%s, %s)] " % (l["cfg"], inner) if l["cfg"] else "#[%s] " % inner
+
+
+def line_is_ts(l):
+    return l["path"][0] == "typeshare"
+
+
+def line_live(l):
+    return l["cfg"] != "any()"
+
+
+STACK_TS = [L("typeshare", '(swift = "Equatable")'), L("typeshare", '(swift = "Equatable, Hashable")'), L("typeshare", '(kotlin = "JvmInline")'),
+            L("typeshare", '(kotlin = "Serializable", swift = "Codable")'), L("typeshare", '(serialized_as = "String")'),
+            L("typeshare", "(redacted)"), L("typeshare"), L("typeshare", '(swift = "Equatable")'), L("typeshare", '(kotlin = "JvmInline")'),
+            L("typeshare::typeshare", '(swift = "Sendable")'), L("typeshare", '(kotlin = "Parcelize")', cfg="all()"),
+            L("typeshare", '(swift = "Never")', cfg="any()")]
+STACK_NEUTRAL = [L("doc", ' = " a doc line "'), L("allow", "(dead_code)"), L("must_use"), L("allow", "(non_camel_case_types)"),
+                 L("doc", ' = " another doc line "'), L("serde", '(rename_all = "UPPERCASE")', cfg="any()"),
+                 L("derive", "(NoSuchDerive)", cfg="any()")]
+STACK_FIELD_ATTRS = [(["typeshare"], "(skip)"), (["typeshare"], '(serialized_as = "String")'), (["typeshare"], "(typescript(readonly))"),
+                     (["typeshare"], '(kotlin(type = "x"), go(note = "y"))'), (["doc"], ' = " field doc "'), (["allow"], "(dead_code)")]
+
+
+def stk_attrs(rng, extra=()):
+    out = []
+    for _ in range(rng.choice([0, 0, 1, 1, 2, 3])):
+        a = rng.choice(STACK_FIELD_ATTRS + list(extra))
+        if a[0] != ["serde"] or a not in out:        # serde rejects a repeated argument
+            out.append(a)
+    return out
+
+
+def stk_field(rng, rest, extra=()):
+    return {"attrs": stk_attrs(rng, extra), "rest": rest}
+
+
+def stk_variant(rng, name, style, fields, rest="", lead=()):
+    va = stk_attrs(rng, [(["serde"], '(rename = "renamed%s")' % name)])
+    return {"attrs": list(lead) + va, "name": name, "style": style, "fields": fields, "rest": rest}
+
+
+def one_of(rng, *groups):
+    """serde container arguments: from each group (alternatives that exclude each other) at most one"""
+    return [rng.choice(g) for g in groups if rng.random() < 0.7]
+
+
+def stk_shape(rng):
+    """one item: (shape name, kind/style/head/fields-or-variants in the generator's item format, derive names, serde container
+    arguments, repr arguments, probe expressions over module M)"""
+    shape = rng.choice(["struct", "struct", "enum-adjacent", "enum-adjacent", "enum-internal", "enum-repr", "union", "newtype", "generic"])
+    ren = (["serde"], '(rename = "otherName")')
+    if shape == "struct":
+        it = {"kind": "struct", "style": "struct", "head": "pub struct S", "where": "",
+              "fields": [stk_field(rng, "pub first_name: String", [ren]), stk_field(rng, "pub last_seen: u64"),
+                         stk_field(rng, "is_ok: Option<u8>", [(["serde"], '(skip_serializing_if = "Option::is_none")')])]}
+        derives = ["serde::Serialize", "serde::Deserialize", "Default", "Debug"]
+        serde = one_of(rng, ['rename_all = "camelCase"', 'rename_all = "SCREAMING-KEBAB-CASE"', 'rename_all = "PascalCase"'],
+                       ["deny_unknown_fields"], ["default"], ['tag = "kind"'], ['rename = "Renamed"'])
+        reprs = ["C", "C, align(16)", "Rust"]
+        probes = ["serde_json::to_string(&M::S::default()).unwrap()",
+                  'format!("{:?}", serde_json::from_str::<M::S>(r#"{"first_name":"a","last_seen":3,"is_ok":null,"extra":1}"#))',
+                  'format!("{:?}", serde_json::from_str::<M::S>(r#"{"firstName":"a","LAST-SEEN":4}"#))',
+                  "std::mem::size_of::<M::S>().to_string()", "std::mem::align_of::<M::S>().to_string()"]
+    elif shape == "enum-adjacent":
+        it = {"kind": "enum", "head": "pub enum S", "where": "", "variants": [
+            stk_variant(rng, "UnitCase", "unit", [], lead=[(["default"], "")]),
+            stk_variant(rng, "NewType", "tuple", [stk_field(rng, "u32")]),
+            stk_variant(rng, "PairOf", "tuple", [stk_field(rng, "u8"), stk_field(rng, "String")]),
+            stk_variant(rng, "RecOf", "struct", [stk_field(rng, "some_x: u8", [ren]), stk_field(rng, "y: Option<u8>")])]}
+        derives = ["serde::Serialize", "serde::Deserialize", "Default", "Debug"]
+        serde = one_of(rng, ['tag = "type", content = "content"', 'tag = "t", content = "c"', "untagged"],
+                       ['rename_all = "snake_case"', 'rename_all = "UPPERCASE"'], ['rename_all_fields = "camelCase"'])
+        reprs = ["C", "u8", "C, u8"]
+        probes = ['serde_json::to_string(&[M::S::default(), M::S::NewType(1), M::S::PairOf(2, "p".into()), M::S::RecOf { some_x: 3, y: None }]).unwrap()',
+                  'format!("{:?}", serde_json::from_str::<M::S>(r#"{"type":"NewType","content":5}"#))',
+                  'format!("{:?}", serde_json::from_str::<M::S>(r#"{"RecOf":{"some_x":1,"y":2}}"#))',
+                  "std::mem::size_of::<M::S>().to_string()"]
+    elif shape == "enum-internal":
+        it = {"kind": "enum", "head": "pub enum S", "where": "", "variants": [
+            stk_variant(rng, "UnitCase", "unit", [], lead=[(["default"], "")]),
+            stk_variant(rng, "RecOf", "struct", [stk_field(rng, "some_x: u8", [ren]), stk_field(rng, "y: Option<u8>")]),
+            stk_variant(rng, "Empty", "struct", [])]}
+        derives = ["serde::Serialize", "Default", "Debug", "Clone"]
+        serde = one_of(rng, ['tag = "t"', 'tag = "kind"'], ['rename_all = "kebab-case"', 'rename_all = "lowercase"'],
+                       ['rename_all_fields = "SCREAMING_SNAKE_CASE"'])
+        reprs = ["C", "i8"]
+        probes = ["serde_json::to_string(&[M::S::default(), M::S::RecOf { some_x: 3, y: Some(1) }, M::S::Empty {}]).unwrap()",
+                  "std::mem::size_of::<M::S>().to_string()"]
+    elif shape == "enum-repr":
+        it = {"kind": "enum", "head": "pub enum S", "where": "", "variants": [
+            stk_variant(rng, "A", "unit", [], rest=" = 3"), stk_variant(rng, "B", "unit", []), stk_variant(rng, "C", "unit", [], rest=" = 40")]}
+        derives = ["serde::Serialize", "Clone", "Copy", "Debug", "PartialEq"]
+        serde = one_of(rng, ['rename_all = "lowercase"', 'rename_all = "SCREAMING_SNAKE_CASE"'])
+        reprs = ["u8", "i16", "u64", "C"]
+        probes = ["(M::S::B as i64).to_string()", "std::mem::size_of::<M::S>().to_string()",
+                  "serde_json::to_string(&[M::S::A, M::S::B, M::S::C]).unwrap()"]
+    elif shape == "union":
+        it = {"kind": "union", "style": "union", "head": "pub union S", "where": "",
+              "fields": [stk_field(rng, "pub a: u64"), stk_field(rng, "pub b: [u8; 3]")]}
+        derives = ["Clone", "Copy"]
+        serde = []
+        reprs = ["C", "C, align(32)", "C, packed"]
+        probes = ["std::mem::size_of::<M::S>().to_string()", "std::mem::align_of::<M::S>().to_string()",
+                  "unsafe { M::S { a: 0x0102 }.b[0] }.to_string()"]
+    elif shape == "newtype":
+        it = {"kind": "struct", "style": "tuple", "head": "pub struct S", "where": "", "fields": [stk_field(rng, "pub u32")]}
+        derives = ["serde::Serialize", "serde::Deserialize", "Default", "Debug", "PartialEq"]
+        serde = one_of(rng, ["transparent"])
+        reprs = ["transparent", "C"]
+        probes = ["serde_json::to_string(&M::S::default()).unwrap()", 'format!("{:?}", serde_json::from_str::<M::S>("[7]"))',
+                  "std::mem::size_of::<M::S>().to_string()"]
+    else:
+        it = {"kind": "struct", "style": "struct", "head": "pub struct S<'a, T: Default>", "where": " where T: Clone",
+              "fields": [stk_field(rng, "pub the_item: T", [ren]), stk_field(rng, "pub the_list: Vec<T>"), stk_field(rng, "pub the_str: &'a str")]}
+        derives = ["serde::Serialize", "Default", "Debug"]
+        serde = one_of(rng, ['rename_all = "camelCase"', 'rename_all = "SCREAMING_SNAKE_CASE"'], ['bound = "T: serde::Serialize"'])
+        reprs = ["C"]
+        probes = ["serde_json::to_string(&M::S::<'static, u16>::default()).unwrap()", 'format!("{:?}", M::S::<\'static, u8>::default())']
+    return shape, it, derives, serde, reprs, probes
+
+
+# items whose stripped twin is rejected while its derives expand: the annotated program must be rejected as well (the attribute
+# that makes it wrong stands between / after the stacked lines like any other)
+STACK_BAD = [
+    ("internal-tag-on-tuple-variant", {"kind": "enum", "head": "pub enum S", "where": "", "variants": [
+        {"attrs": [], "name": "A", "style": "tuple", "fields": [{"attrs": [], "rest": "u8"}, {"attrs": [], "rest": "u8"}], "rest": ""}]},
+     ["serde::Serialize"], ['tag = "t"']),
+    ("untagged-on-struct", {"kind": "struct", "style": "struct", "head": "pub struct S", "where": "", "fields": [{"attrs": [], "rest": "a: u8"}]},
+     ["serde::Serialize"], ["untagged"]),
+    ("transparent-with-two-fields", {"kind": "struct", "style": "struct", "head": "pub struct S", "where": "",
+                                     "fields": [{"attrs": [], "rest": "a: u8"}, {"attrs": [], "rest": "b: u8"}]},
+     ["serde::Serialize"], ["transparent"]),
+    ("unknown-rename-rule", {"kind": "struct", "style": "struct", "head": "pub struct S", "where": "", "fields": [{"attrs": [], "rest": "a: u8"}]},
+     ["serde::Serialize"], ['rename_all = "no-such-case"']),
+]
+
+
+def stk_lines(rng, derives, serde, reprs, n_stacked, wrong=None):
+    """the item-level lines of one item: one invoking typeshare line plus `n_stacked` further ones, in a random order between
+    1-3 derive lines, 0-3 serde lines, repr, doc/allow/must_use and cfg_attr-wrapped variants of each"""
+    derives = list(derives)
+    rng.shuffle(derives)
+    cuts = sorted(rng.sample(range(1, len(derives)), min(len(derives) - 1, rng.choice([0, 0, 1, 2])))) if len(derives) > 1 else []
+    others = [L("derive", "(%s)" % ", ".join(derives[a:b])) for a, b in zip([0] + cuts, cuts + [len(derives)])]
+    if len(serde) > 1 and rng.random() < 0.3:
+        others.append(L("serde", "(%s)" % ", ".join(serde)))
+    else:
+        others += [L("serde", "(%s)" % a) for a in serde]
+    if reprs and rng.random() < 0.5:
+        others.append(L("repr", "(%s)" % rng.choice(reprs)))
+    for _ in range(rng.choice([0, 1, 1, 2])):
+        others.append(dict(rng.choice(STACK_NEUTRAL)))
+    for l in others:
+        if l["cfg"] is None and l["path"] != ["doc"] and rng.random() < 0.15:
+            l["cfg"] = "all()"
+    rng.shuffle(others)
+    ts = [dict(L("typeshare", rng.choice(ARGS)))] + [dict(rng.choice(STACK_TS)) for _ in range(n_stacked)]
+    rng.shuffle(ts)
+    if not any(line_live(l) for l in ts):
+        ts[0]["cfg"] = None
+    # every typeshare line goes to a uniformly drawn position: last line, directly before serde / derive / repr / doc, adjacent
+    # stacked lines and a derive above the invoking line all occur (counted as stacked-last-typeshare-line-* in the evidence)
+    lines = list(others)
+    for l in ts:
+        lines.insert(rng.randint(0, len(lines)), l)
+    if wrong is not None:
+        w = L("serde", "(%s)" % wrong)
+        lines.insert(rng.randint(max(i for i, l in enumerate(lines) if l["path"] == ["derive"]) + 1, len(lines)), w)
+    return lines
+
+
+def stk_expand(lines):
+    """the lines as rustc hands them on after evaluating cfg_attr"""
+    return [L("::".join(l["path"]), l["tokens"]) for l in lines if line_live(l)]
+
+
+def stk_source(lines, it, dump=None):
+    """(annotated source, stripped twin source) on one line each; `dump` = id of an attrdump line put right after the invoker"""
+    out, seen = [], False
+    for l in lines:
+        out.append(line_src(l))
+        if dump is not None and not seen and line_is_ts(l) and line_live(l):
+            out.append('#[attrdump::dump("%s")] ' % dump)
+            seen = True
+    twin = json.loads(json.dumps(it))
+    strip(twin)
+    body = dict(it, attrs=[])
+    return "".join(out) + render(body), "".join(line_src(l) for l in lines if not line_is_ts(l)) + render(dict(twin, attrs=[]))
+
+
+def stacked_part(check):
+    """Dimension: the NUMBER and POSITIONS of item-level `#[typeshare(..)]` lines.  Every item (named / tuple / generic struct, adjacently /
+    internally tagged / untagged / repr enum, union) carries the invoking line plus 0-4 further typeshare lines in the documented
+    argument forms (swift / kotlin decorators, serialized_as, redacted, bare, full path, inside cfg_attr), shuffled in every order
+    with 1-3 derive lines, serde(tag / content / rename_all / rename_all_fields / deny_unknown_fields / transparent / bound ..),
+    repr, doc, allow, must_use and live / dead cfg_attr lines; fields and variants carry helpers mixed with serde / doc attributes.
+    Demanded, on what the real macro and rustc produce:
+    (a) twin programs: the annotated program compiles and every probe (serde_json to_string / from_str, size_of, align_of,
+        discriminants, Debug) prints what the twin with all typeshare attributes removed prints;
+    (b) items whose twin is rejected (a wrong serde container attribute after the stacked lines) are rejected when annotated too;
+    (c) token level (attrdump right after the invoking line): what the macro returns is the item with nothing but typeshare
+        attributes removed (further item-level typeshare lines may stay - rustc expands them next - or go), all other attributes
+        in their order; and it equals the Lean model's `expand` of the item rustc handed to the macro."""
+    rng = check.rng
+    check.rule += ("; stacked lines: items with 1-5 item-level #[typeshare(..)] lines (documented argument forms, also inside cfg_attr and "
+                   "with the full path) in every order between their derive / serde / repr / doc / allow / cfg_attr lines, compiled as "
+                   "twin programs (annotated / all typeshare attributes removed, accepted and rejected ones) and compared through "
+                   "serde_json, size_of, align_of, discriminants and Debug, and at token level right after the invoking line")
+    for rnd in range(6 if check.thorough else 1):
+        n_items = 60 if check.thorough else 36
+        def one():
+            shape, it, derives, serde, reprs, probes = stk_shape(rng)
+            n_stacked = rng.choice([0, 1, 2, 2, 3, 3, 4])
+            return {"shape": shape, "it": it, "lines": stk_lines(rng, derives, serde, reprs, n_stacked), "probes": probes, "stacked": n_stacked}
+        items = [one() for _ in range(n_items)]
+        more = [one() for _ in range(3 * n_items)]          # token level only (no derive runs there: cheap)
+        bad = []
+        for name, it, derives, wrong in rng.sample(STACK_BAD, 3 if not check.thorough else len(STACK_BAD)):
+            bad.append({"shape": name, "it": it, "lines": stk_lines(rng, derives, [], [], rng.choice([1, 2, 2, 3, 4]), wrong=wrong[0])})
+        if stacked_twins(check, rnd, items, bad) or stacked_tokens(check, rnd, items + more):
+            return
+
+
+def stk_count(x):
+    """item-level typeshare lines rustc sees on the item (the invoking one included)"""
+    return sum(1 for l in x["lines"] if line_is_ts(l) and line_live(l))
+
+
+def stk_case(x, **more):
+    ann, twin = stk_source(x["lines"], x["it"])
+    return dict({"shape": x["shape"], "annotated": "use typeshare::typeshare; " + ann, "stripped_twin": twin,
+                 "item_level_typeshare_lines": stk_count(x),
+                 "replay": "put either text into a crate that depends on typeshare (path = <repo>/lib), serde (derive) and serde_json"}, **more)
+
+
+def stacked_twins(check, rnd, items, bad):
+    """(a) and (b); returns True when a violation was reported"""
+    rows = ["#![allow(unused, legacy_derive_helpers)]"]       # one source line per module: line number -> item
+    where, probes, feats = {}, [], []
+    for k, x in enumerate(items):
+        ann, twin = stk_source(x["lines"], x["it"])
+        rows.append("pub mod plain_%d { %s }" % (k, twin))
+        rows.append('#[cfg(any(feature = "annot", feature = "a_%d"))] pub mod annot_%d { use typeshare::typeshare; %s }' % (k, k, ann))
+        where[len(rows)] = ("good", k)
+        feats.append("a_%d" % k)
+        for j, e in enumerate(x["probes"]):
+            probes.append('    println!("%d.%d plain {}", %s);' % (k, j, e.replace("M::", "plain_%d::" % k)))
+            probes.append('    #[cfg(feature = "annot")] println!("%d.%d annot {}", %s);' % (k, j, e.replace("M::", "annot_%d::" % k)))
+    for k, x in enumerate(bad):
+        ann, twin = stk_source(x["lines"], x["it"])
+        rows.append('#[cfg(any(feature = "pb", feature = "pb_%d"))] pub mod plainbad_%d { %s }' % (k, k, twin))
+        where[len(rows)] = ("plainbad", k)
+        rows.append('#[cfg(any(feature = "ab", feature = "ab_%d"))] pub mod annotbad_%d { use typeshare::typeshare; %s }' % (k, k, ann))
+        where[len(rows)] = ("annotbad", k)
+        feats += ["pb_%d" % k, "ab_%d" % k]
+    main = "\n".join(rows) + "\nfn main() {\n" + "\n".join(probes) + "\n}\n"
+    with Scratch() as sc:
+        sc.write("crate/src/main.rs", main)
+        sc.write("crate/Cargo.toml", '[package]\nname = "c19stack"\nversion = "0.1.0"\nedition = "2021"\n\n[workspace]\n\n[features]\n'
+                 + "".join("%s = []\n" % f for f in feats + ["annot", "pb", "ab"])
+                 + '\n[dependencies]\ntypeshare = { path = "%s/lib" }\nserde = { version = "1", features = ["derive"] }\nserde_json = "1"\n' % REPO)
+        shutil.copyfile(os.path.join(REPO, "Cargo.lock"), sc.path("crate/Cargo.lock"))
+        lock = open(os.path.join(BUILD, "cargo-c19.lock"), "w")
+        fcntl.flock(lock, fcntl.LOCK_EX)
+
+        def cargo(verb, features):
+            return subprocess.run(["cargo", verb, "-q", "--offline", "--target-dir", os.path.join(BUILD, "target-c19")] +
+                                  (["--features", ",".join(features)] if features else []), cwd=sc.path("crate"), env=ENV,
+                                  stdout=subprocess.PIPE, stderr=subprocess.PIPE, text=True)
+
+        def culprits(p, group):
+            ks = []
+            for ln in re.findall(r"--> src/main.rs:(\d+):", p.stderr):
+                g = where.get(int(ln))
+                if g and g[0] == group and g[1] not in ks:
+                    ks.append(g[1])
+            return ks
+
+        def errors_of(p):
+            msgs = re.findall(r"= help: message: ([^\n]*)", p.stderr)
+            return "; ".join([l for l in p.stderr.split("\n") if l.startswith("error") and "could not compile" not in l][:3] + msgs[:1])
+        try:
+            p1 = cargo("run", ["annot"])
+            check.count("stacked-builds")
+            if p1.returncode != 0:
+                p0 = cargo("build", [])
+                if p0.returncode != 0:
+                    raise InfraError("C19 stacked lines: the stripped twins do not build:\n" + p0.stderr[-3000:])
+                for k in culprits(p1, "good") + [k for k in range(len(items))]:
+                    pk = cargo("build", ["a_%d" % k])
+                    check.count("stacked-bisect")
+                    if pk.returncode != 0:
+                        x = items[k]
+                        check.saw(("stacked-twin", rnd, k), nontrivial=True)
+                        check.violation("item with %d item-level #[typeshare(..)] lines (%s): the annotated program does not compile although "
+                                        "its twin without the typeshare attributes does: %s" % (stk_count(x), x["shape"], errors_of(pk)),
+                                        case=stk_case(x), impl={"rustc": pk.stderr[-2500:]}, failing_input=True)
+                        return True
+                check.saw(("stacked-twin-whole", rnd), nontrivial=True)
+                check.violation("items with stacked item-level #[typeshare(..)] lines: the annotated program does not compile although every "
+                                "annotated item compiles alone and the stripped program compiles: " + errors_of(p1),
+                                case={"main.rs": main}, impl={"rustc": p1.stderr[-2500:]}, failing_input=True)
+                return True
+            out = {}
+            for l in p1.stdout.split("\n"):
+                m = re.match(r"(\d+)\.(\d+) (plain|annot) (.*)$", l)
+                if m:
+                    out[(int(m.group(1)), int(m.group(2)), m.group(3))] = m.group(4)
+            # (b) rejected twins
+            if bad:
+                pb = cargo("build", ["pb"])
+                ab = cargo("build", ["ab"])
+                check.count("stacked-builds", 2)
+                plain_rejected, annot_rejected = culprits(pb, "plainbad"), culprits(ab, "annotbad")
+                if pb.returncode == 0 or sorted(plain_rejected) != list(range(len(bad))):
+                    raise InfraError("C19 stacked lines: a twin that must be rejected is accepted (%r of %d):\n%s" % (plain_rejected, len(bad), pb.stderr[-2000:]))
+                for k, x in enumerate(bad):
+                    check.saw(("stacked-rejected", stk_source(x["lines"], x["it"])[0]), nontrivial=True)
+                    check.count("stacked-rejected-twin-" + x["shape"])
+                    if k in annot_rejected:
+                        continue
+                    pk = cargo("build", ["ab_%d" % k])
+                    if pk.returncode == 0:
+                        check.violation("item with stacked item-level #[typeshare(..)] lines (%s): the annotated program compiles although its twin "
+                                        "without the typeshare attributes is rejected (%s)" % (x["shape"], errors_of(cargo("build", ["pb_%d" % k]))),
+                                        case=stk_case(x), impl={"rustc": "accepted"}, failing_input=True)
+                        return True
+        finally:
+            lock.close()
+    for k, x in enumerate(items):
+        ann = stk_source(x["lines"], x["it"])[0]
+        check.saw(("stacked-twin", ann), nontrivial=x["stacked"] > 0)
+        check.count("stacked-lines=%d" % x["stacked"])
+        check.count("stacked-shape-" + x["shape"])
+        live = [l for l in x["lines"] if line_live(l)]
+        ts_at = [i for i, l in enumerate(live) if line_is_ts(l)]
+        check.count("stacked-last-typeshare-line-" + ("is-last-attribute" if ts_at[-1] == len(live) - 1 else
+                                                       "before-" + live[ts_at[-1] + 1]["path"][0]))
+        if any(l["path"] == ["derive"] for l in live[:ts_at[0]]):
+            check.count("stacked-derive-before-invoking-line")
+        for j, e in enumerate(x["probes"]):
+            a, b = out.get((k, j, "plain")), out.get((k, j, "annot"))
+            if a is None or b is None:
+                raise InfraError("C19 stacked lines: missing probe output %d.%d" % (k, j))
+            if a != b:
+                check.violation("item with %d item-level #[typeshare(..)] lines (%s): the annotated type behaves differently from its twin "
+                                "without the typeshare attributes: `%s` gives %s, the twin %s" % (stk_count(x), x["shape"], e, b, a),
+                                case=stk_case(x, probe=e), impl={"annotated": b, "twin": a}, failing_input=True)
+                return True
+    return False
+
+
+def stacked_tokens(check, rnd, items):
+    """(c); returns True when a failing input was reported"""
+    chosen = []
+    for x in items:
+        live = [l for l in x["lines"] if line_live(l)]
+        first = min(i for i, l in enumerate(live) if line_is_ts(l))
+        # a derive line above the invoking line runs first and would emit impls for an item attrdump then swallows; a serde line
+        # above it is resolved through the derive that follows, which never runs here.  Those orders are left to the twin programs
+        if not any(l["path"] in (["derive"], ["serde"]) for l in live[:first]):
+            chosen.append(x)
+    reqs = []
+    for x in chosen:
+        live = stk_expand(x["lines"])
+        first = min(i for i, l in enumerate(live) if line_is_ts(l))
+        x["received"] = live[:first] + live[first + 1:]       # what rustc hands to the macro (plus the attrdump line)
+        reqs.append([S("expand"), sx_item(dict(x["it"], attrs=[(l["path"], l["tokens"]) for l in x["received"]]))])
+    answers = model(reqs, with_unicode=False)
+    with Scratch() as sc:
+        dump = sc.path("dump.txt")
+        rows = ["#![allow(unused, legacy_derive_helpers)]", "use typeshare::typeshare;"]
+        where = {}
+        for k, x in enumerate(chosen):
+            rows.append(stk_source(x["lines"], x["it"], dump=str(k))[0])
+            where[len(rows)] = k
+        sc.write("crate/src/lib.rs", "\n".join(rows) + "\n")
+        sc.write("crate/Cargo.toml", '[package]\nname = "c19stackprobe"\nversion = "0.1.0"\nedition = "2021"\n\n[workspace]\n\n[dependencies]\n'
+                 'typeshare = { path = "%s/lib" }\nattrdump = { path = "%s/harness/attrdump" }\n' % (REPO, VERIF))
+        shutil.copyfile(os.path.join(REPO, "Cargo.lock"), sc.path("crate/Cargo.lock"))
+        env = dict(ENV, ATTRDUMP_OUT=dump)
+        lock = open(os.path.join(BUILD, "cargo-c19.lock"), "w")
+        fcntl.flock(lock, fcntl.LOCK_EX)
+        try:
+            cmd = ["cargo", "build", "-q", "--offline", "--target-dir", os.path.join(BUILD, "target-c19")]
+            p = subprocess.run(cmd, cwd=sc.path("crate"), env=env, stdout=subprocess.PIPE, stderr=subprocess.PIPE, text=True)
+            check.count("stacked-builds")
+            if p.returncode != 0 or not os.path.exists(dump):
+                # attrdump swallows every item: the crate builds unless #[typeshare] itself fails.  Cross-check without the invoking lines
+                plain = []
+                for x in chosen:
+                    live = [l for l in x["lines"] if line_live(l)]
+                    first = min(i for i, l in enumerate(x["lines"]) if line_is_ts(l) and line_live(l))
+                    plain.append(stk_source(x["lines"][:first] + [L("attrdump::dump", '("x")')] + x["lines"][first + 1:], x["it"])[0])
+                sc.write("crate/src/lib.rs", "\n".join(rows[:2] + plain) + "\n")
+                p2 = subprocess.run(cmd, cwd=sc.path("crate"), env=env, stdout=subprocess.PIPE, stderr=subprocess.PIPE, text=True)
+                if p2.returncode != 0:
+                    raise InfraError("C19 stacked-lines probe does not build even without the invoking #[typeshare] lines:\n" + p2.stderr[-3000:])
+                ks = [where[int(ln)] for ln in re.findall(r"--> src/lib.rs:(\d+):", p.stderr) if int(ln) in where]
+                errs = "; ".join([l for l in p.stderr.split("\n") if l.startswith("error")][:3])
+                check.saw(("stacked-probe-build", rnd), nontrivial=True)
+                check.violation("item with stacked item-level #[typeshare(..)] lines: the #[typeshare] macro itself fails on it (the same item "
+                                "without the invoking line is accepted): " + errs,
+                                case=stk_case(chosen[ks[0]]) if ks else {"lib.rs": "\n".join(rows)}, impl={"rustc": p.stderr[-2500:]},
+                                failing_input=True)
+                return True
+        finally:
+            lock.close()
+        got = {}
+        for line in open(dump, encoding="utf-8"):
+            k, _, v = line.rstrip("\n").partition("\t")
+            got[int(k)] = v
+    for k, (x, ans) in enumerate(zip(chosen, answers)):
+        check.saw(("stacked-tokens", rows[k + 2]), nontrivial=x["stacked"] > 0)
+        check.count("stacked-token-comparisons")
+        impl = squeeze(got.get(k, "<missing>"))
+        pairs = [(l["path"], l["tokens"]) for l in x["received"]]
+        twin = json.loads(json.dumps(x["it"]))
+        strip(twin)
+        # nothing but typeshare attributes removed: every subset of the further item-level typeshare lines may have been kept
+        ts_idx = [i for i, l in enumerate(x["received"]) if line_is_ts(l)]
+        allowed = set()
+        for mask in range(1 << len(ts_idx)):
+            drop = {i for b, i in enumerate(ts_idx) if mask >> b & 1}
+            allowed.add(squeeze(render(dict(twin, attrs=[a for i, a in enumerate(pairs) if i not in drop]))))
+        model_src = render(apply_model(dict(x["it"], attrs=pairs), ans))
+        if len([s for s in check.samples if "stacked" in s]) < 2 and x["stacked"] >= 2:
+            check.sample({"stacked": True, "source": rows[k + 2], "macro_output": got.get(k), "model_expansion": model_src}, limit=8)
+        if impl not in allowed:
+            check.violation("item with %d item-level #[typeshare(..)] lines (%s): what the macro returns is not the item with only "
+                            "typeshare attributes removed (another attribute was dropped, moved or changed)" % (stk_count(x), x["shape"]),
+                            case=stk_case(x, probe_source=rows[k + 2]), impl=got.get(k), model=model_src, failing_input=True)
+            return True
+        if impl != squeeze(model_src) and not any(v["broken_obligation"] for v in check.violations):
+            check.violation("stacked item-level #[typeshare(..)] lines: the macro's output differs from the model's expansion (the model keeps "
+                            "further item-level typeshare lines for rustc to expand next)", case=stk_case(x, probe_source=rows[k + 2]),
+                            impl=got.get(k), model=model_src, failing_input=False, broken="correspondence annotation macro (theorems TsV.C19.*)")
+    return False
